@@ -75,6 +75,13 @@ func genC04(seed uint64, run int, tier string) Scenario {
 		// remembers having acquired, so the session never starts in one of them
 		twinA, twinB = g.addTwin(tree)
 	}
+	for _, ps := range tree.Specs {
+		if ps.EscalateAuth && r.IntN(5) == 0 {
+			// an authenticated edge on which the device does not ask
+			tree.ByName[ps.Previous].Cmds[ps.Escalate] = &peer.Reply{Next: ps.Name}
+			sc.Ex = append(sc.Ex, "grants:"+ps.Name)
+		}
+	}
 	loose := ""
 	if r.IntN(4) == 0 {
 		// one level whose pattern also matches other levels' prompts and excludes them by its
@@ -242,6 +249,18 @@ func pathBetween(parent map[string]string, a, b string) []string {
 }
 
 // expectedNav returns the lines the device must receive to go from level a to level b.
+// grantsWithoutAsking: the device enters this (authenticated) level without showing its password
+// prompt, e.g. because no secret is set on the box: the secret must then not be sent at all.
+func grantsWithoutAsking(sc *Session, level string) bool {
+	for _, e := range sc.Ex {
+		if e == "grants:"+level {
+			return true
+		}
+	}
+
+	return false
+}
+
 func expectedNav(sc *Session, a, b string) []string {
 	specs, parent := treeOf(sc)
 	p := pathBetween(parent, a, b)
@@ -252,7 +271,7 @@ func expectedNav(sc *Session, a, b string) []string {
 			lines = append(lines, specs[from].Deescalate)
 		} else {
 			lines = append(lines, specs[to].Escalate)
-			if specs[to].EscalateAuth {
+			if specs[to].EscalateAuth && !grantsWithoutAsking(sc, to) {
 				lines = append(lines, sc.Secondary)
 			}
 		}
